@@ -1,5 +1,5 @@
 """C01, C10, C12, C13, C14: whole programs against the README semantics (FMLSource)."""
-import os, json, random, subprocess, hashlib
+import os, json, random, subprocess, hashlib, time
 from common import *
 import pool, srctrace
 from checks_bytecode import tier_sizes
@@ -61,7 +61,7 @@ def judge_programs(chk, exe, progs, wd, tag, budget=20000, cli_sample=0, rng=Non
             j = len(progs) + i
             ast = progs[i].get('ast') or outs[i].get('ast')
             observed[j] = (st, list(so))
-            srecs.append(srctrace.source_record(j, ast, st, list(so)))
+            srecs.append(srctrace.source_record(j, ast, st, list(so), proc={'errempty': len(se) == 0}))
     verdicts, rs = srctrace.validate(srecs, wd, tag=tag, budget=budget)
     for r in rs:
         chk.add_tlc(r)
@@ -343,5 +343,399 @@ def c13(tier):
         chk.sample({'program': progs[i]['name'], 'source': progs[i]['text'][progs[i]['text'].find('print ( " R='):][:400], 'marker_sequence': bytes(out).decode('utf-8', 'replace')})
     chk.exhaustive = (tier == 'thorough')
     chk.assumptions = ['TLC', 'FMLSource evaluation order = the README rules (left to right; compound array initializer per element; constant initializers once)']
+    rm(wd)
+    return chk.finish()
+
+
+# ------------------------------------------------------------------------------------------------ C14
+def dispatch_ast(d):
+    _, end, call = d[0], d[1], d[2]
+    chain = d[3:]
+    endv = {'null': N(), 'int': I(5), 'bool': B(True), 'arr': Arr(I(2), I(7))}[end]
+    es = [Let('e', endv)]
+    prev = 'e'
+    for i, defs in enumerate(chain, start=1):
+        ms = [Let('tag', I(i))]
+        if 'm' in defs:
+            ms.append(Fun('m', ['a'], Blk([Pr('m%d;' % i), Op('+', V('a'), GF(V('this'), 'tag'))])))
+        if '+' in defs:
+            ms.append(Fun('+', ['o'], Blk([Pr('+%d;' % i), Op('+', GF(V('this'), 'tag'), V('o'))])))
+        if 'g' in defs:
+            ms.append(Fun('get', ['i'], Blk([Pr('g%d;' % i), Op('+', V('i'), GF(V('this'), 'tag'))])))
+        if 's' in defs:
+            ms.append(Fun('set', ['i', 'v'], Blk([Pr('s%d;' % i), V('v')])))
+        es.append(Let('c%d' % i, Obj(V(prev), ms)))
+        prev = 'c%d' % i
+    es.append(Let('t', V(prev)))
+    t = V('t')
+    c = {'m1': MC(t, 'm', [I(10)]), 'm0': MC(t, 'm', []), 'm2': MC(t, 'm', [I(1), I(2)]), 'plus': Op('+', t, I(1)), 'and': Op('&', t, B(True)),
+         'index': Ix(t, I(0)), 'setindex': SIx(t, I(1), I(9)), 'get': MC(t, 'get', [I(1)]), 'set': MC(t, 'set', [I(0), I(4)]),
+         'zz': MC(t, 'zz', [I(1)]), 'field': GF(t, 'tag')}[call]
+    es += [Pr('r=~\\n', [c]), Pr('t=~\\n', [t]), Pr('after\\n')]
+    return Top(es)
+
+
+def alias_ast(d):
+    _, target, k1, k2, mut = d
+    es = []
+    if target == 'obj':
+        es.append(Let('x', Obj(N(), [Let('v', I(0)), Fun('bump', [], SF(V('this'), 'v', Op('+', GF(V('this'), 'v'), I(1)))), Fun('peek', [], GF(V('this'), 'v'))])))
+        wrapper = None
+    else:
+        es.append(Let('x', Arr(I(2), I(0))))
+        es.append(Let('w', Obj(V('x'), [Fun('bump', [], SIx(V('this'), I(0), Op('+', Ix(V('this'), I(0)), I(1)))), Fun('peek', [], Ix(V('this'), I(0)))])))
+
+    def access(kind, tag):
+        """statements creating the alias + expression reaching the value through it"""
+        if kind == 'var':
+            return [Let('a' + tag, V('x'))], V('a' + tag)
+        if kind == 'field':
+            return [Let('h' + tag, Obj(N(), [Let('slot', V('x'))]))], GF(V('h' + tag), 'slot')
+        if kind == 'elem':
+            return [Let('r' + tag, Arr(I(1), V('x')))], Ix(V('r' + tag), I(0))
+        if kind == 'arg':
+            return [], V('p')          # used inside a function
+        return [], (V('x') if target == 'obj' else V('w'))      # this: through a method of the value (or of its wrapper)
+    sa, ea = access(k1, 'A')
+    sb, eb = access(k2, 'B')
+    es += sa + sb
+
+    def mutate(e):
+        if mut == 'setfield':
+            return SF(e, 'v', Op('+', GF(e, 'v'), I(1)))
+        if mut == 'setelem':
+            return SIx(e, I(0), Op('+', Ix(e, I(0)), I(1)))
+        return MC(e, 'bump', []) if target == 'obj' else MC(e, 'set', [I(0), Op('+', MC(e, 'get', [I(0)]), I(1))])
+
+    def observe(e, label):
+        inner = GF(e, 'v') if target == 'obj' else Ix(e, I(0))
+        return Pr(label + ' ~ ~\\n', [inner, e])
+    if k1 == 'arg':
+        es.append(Fun('mutA', ['p'], mutate(V('p'))))
+        mstmt = Call('mutA', [V('x')])
+    elif k1 == 'this':
+        mstmt = MC(ea, 'bump', [])
+    else:
+        mstmt = mutate(ea)
+    if k2 == 'arg':
+        es.append(Fun('obsB', ['p'], observe(V('p'), 'B')))
+        ostmt = lambda: Call('obsB', [V('x')])
+    elif k2 == 'this':
+        ostmt = lambda: Pr('B ~\\n', [MC(eb, 'peek', [])])
+    else:
+        ostmt = lambda: observe(eb, 'B')
+    # function definitions must precede their use and live at top level: move them to the front
+    funs = [e for e in es if e['t'] == 'Fun']
+    rest = [e for e in es if e['t'] != 'Fun']
+    return Top(funs + rest + [ostmt(), mstmt, ostmt(), mstmt, ostmt(), Pr('x ~\\n', [V('x')])])
+
+
+def value_ast(d):
+    _, v, k1, k2 = d
+    x0 = {'int': I(5), 'bool': B(True), 'null': N()}[v]
+    es = [Fun('chg', ['p'], Blk([Asg('p', I(99)), V('p')])), Let('x', x0)]
+
+    def copy(kind, tag):
+        if kind == 'var':
+            return [Let('a' + tag, V('x'))], V('a' + tag), Asg('a' + tag, I(99))
+        if kind == 'field':
+            return [Let('h' + tag, Obj(N(), [Let('slot', V('x'))]))], GF(V('h' + tag), 'slot'), SF(V('h' + tag), 'slot', I(99))
+        if kind == 'elem':
+            return [Let('r' + tag, Arr(I(1), V('x')))], Ix(V('r' + tag), I(0)), SIx(V('r' + tag), I(0), I(99))
+        return [], V('x'), Call('chg', [V('x')])
+    sa, ea, ma = copy(k1, 'A')
+    sb, eb, mb = copy(k2, 'B')
+    es += sa + sb + [Pr('~ ~ ~\\n', [V('x'), ea, eb]), Pr('m=~\\n', [ma]), Pr('~ ~ ~\\n', [V('x'), ea, eb])]
+    return Top(es)
+
+
+def c14(tier):
+    chk = Check('C14', tier)
+    chk.rule = ('TLC enumerates (MC_Objects) parent chains of depth 0-3 ending in null/int/bool/array whose levels define one of 6 member sets (m, +, get, set, overriding) x 11 '
+                'calls on the outermost object (right/wrong argument counts, operators, a[i], a[i] <- v, get/set by name, unknown method, field access), and aliasing templates '
+                'storage kind^2 x target x mutation (+ value semantics of int/bool/null); FMLSource (lookup along the chain, arity check where found, built-ins at the end, shared heap '
+                'cells), run by TLC, prescribes each outcome; `this` under delegation accepted as holder or receiver. Quick: all chains of depth <= 1 + a stride of deeper ones, all '
+                'aliasing templates; thorough: all. distinct_nontrivial = distinct descriptors judged.')
+    exe = build('debug')
+    wd = scratch('c14')
+    r = tlc_or_die('MC_Objects', workers=8, timeout=1800)
+    chk.add_tlc(r)
+    ds = [g['d'] for g in r.lines.get('REPLAY', [])]
+    ds.sort()
+    chk.notes['descriptors_enumerated'] = len(ds)
+    if tier != 'thorough':
+        small = [d for d in ds if d[0] != 'dispatch' or len(d) <= 4]
+        deep = [d for d in ds if d[0] == 'dispatch' and len(d) > 4]
+        ds = small + deep[(seed() % 12)::12]
+    progs = []
+    for d in ds:
+        ast = {'dispatch': dispatch_ast, 'alias': alias_ast, 'value': value_ast}[d[0]](d)
+        progs.append({'name': 'obj:' + '/'.join(x if x else '-' for x in d), 'text': unparse(ast), 'ast': strip_marks(ast)})
+    outs, vs = judge_programs(chk, exe, progs, wd, 'c14', budget=3000)
+    amb = len([v for v in vs.values() if v.get('amb')])
+    chk.notes['programs_with_delegated_method_found_in_parent'] = amb
+    for i in (3, len(progs) // 2, len(progs) - 1):
+        st, out = srctrace.status_of(outs[i])
+        chk.sample({'program': progs[i]['name'], 'source': progs[i]['text'][:500], 'status': st, 'out': bytes(out).decode('utf-8', 'replace')})
+    chk.exhaustive = (tier == 'thorough')
+    chk.assumptions = ['TLC', 'FMLSource object model (DESIGN §3.7); `this` = holder (as implemented) or receiver (as in Feeny) are both accepted']
+    rm(wd)
+    return chk.finish()
+
+
+# ------------------------------------------------------------------------------------------------ C10
+FAULTS = {
+    'unknown-variable': lambda: Pr('~\\n', [V('nosuch')]),
+    'unknown-variable-assign': lambda: Asg('nosuch', I(1)),
+    'unknown-function': lambda: Call('nosuchf', [I(1)]),
+    'unknown-method-int': lambda: MC(I(5), 'nosuch', [I(1)]),
+    'unknown-method-object': lambda: MC(V('ob'), 'nosuch', [I(1)]),
+    'unknown-method-array': lambda: MC(V('ar'), 'nosuch', [I(1)]),
+    'unknown-method-null': lambda: MC(N(), 'nosuch', [I(1)]),
+    'unknown-field': lambda: GF(V('ob'), 'nosuch'),
+    'unknown-field-assign': lambda: SF(V('ob'), 'nosuch', I(1)),
+    'field-of-non-object': lambda: GF(V('ar'), 'fld'),
+    'field-of-int': lambda: GF(I(3), 'fld'),
+    'arity-function-more': lambda: Call('fn', [I(1), I(2)]),
+    'arity-function-less': lambda: Call('fn', []),
+    'arity-method': lambda: MC(V('ob'), 'me', [I(1), I(2)]),
+    'arity-builtin': lambda: MC(I(1), '+', [I(2), I(3)]),
+    'arity-builtin-zero': lambda: MC(I(1), '+', []),
+    'arity-array-get': lambda: MC(V('ar'), 'get', [I(0), I(1)]),
+    'index-negative': lambda: Ix(V('ar'), I(-1)),
+    'index-too-large': lambda: Ix(V('ar'), I(2)),
+    'index-assign-too-large': lambda: SIx(V('ar'), I(2), I(1)),
+    'index-not-integer': lambda: Ix(V('ar'), B(True)),
+    'size-negative': lambda: Arr(I(-1), I(0)),
+    'size-negative-compound': lambda: Arr(I(-1), Call('fn', [I(1)])),
+    'size-not-integer': lambda: Arr(B(True), I(0)),
+    'size-null': lambda: Arr(N(), Call('fn', [I(1)])),
+    'operand-kind-int': lambda: Op('+', I(1), B(True)),
+    'operand-kind-bool': lambda: Op('&', B(True), I(1)),
+    'operand-kind-null': lambda: Op('+', N(), I(1)),
+    'operand-kind-cmp': lambda: Op('<', I(1), N()),
+    'print-too-few': lambda: Pr('a~b~\\n', [I(1)]),
+    'print-too-many': lambda: Pr('ab\\n', [I(1)]),
+    'print-none-given': lambda: Pr('~'),
+    'zero-divisor': lambda: Op('/', I(1), I(0)),
+    'zero-remainder': lambda: Op('%', I(1), I(0)),
+    'min-div-minus-one': lambda: Op('/', I(-2147483648), I(-1)),
+    'min-rem-minus-one': lambda: Op('%', I(-2147483648), I(-1)),
+    'duplicate-field': lambda: Obj(N(), [Let('q', I(1)), Let('q', I(2))]),
+    'duplicate-method': lambda: Obj(N(), [Fun('q', [], I(1)), Fun('q', [], I(2))]),
+    'operator-on-array': lambda: Op('==', V('ar'), V('ar')),
+}
+POSITIONS = ['top', 'block', 'loop', 'fun', 'meth', 'arg', 'cond', 'field-init', 'array-init']
+
+
+def fault_program(fault, position):
+    f = FAULTS[fault]()
+    at = lambda p: ([f] if p == position else [])
+    es = [Fun('fn', ['a'], V('a')), Let('ob', Obj(N(), [Let('fld', I(1)), Fun('me', ['a'], V('a'))])), Let('ar', Arr(I(2), I(0))),
+          Fun('g', [], Blk([Pr('F\\n')] + at('fun') + [Pr('G\\n'), I(0)])),
+          Let('h', Obj(N(), [Fun('k', [], Blk([Pr('H\\n')] + at('meth') + [Pr('I\\n'), I(0)]))])),
+          Pr('A\\n')] + at('top') + [Pr('B\\n'),
+          Blk([Pr('C\\n')] + at('block') + [Pr('D\\n')]),
+          Let('i', I(0)), Wh(Op('<', V('i'), I(2)), Blk([Pr('E~\\n', [V('i')])] + at('loop') + [Asg('i', Op('+', V('i'), I(1)))])),
+          Call('g', []), MC(V('h'), 'k', []),
+          Pr('J ~ ~\\n', [Blk([Pr('j1;'), I(1)])] + ([f] if position == 'arg' else [I(2)])),
+          If(Blk([Pr('K;')] + at('cond') + [B(True)]), Pr('L\\n'), Pr('M\\n')),
+          Let('ofi', Obj(N(), [Let('p', Blk([Pr('N;'), I(1)])), Let('q', Blk(at('field-init') + [I(2)]))])),
+          Let('afi', Arr(I(2), Blk([Pr('O;')] + at('array-init') + [I(3)]))),
+          Pr('Z ~ ~\\n', [V('ofi'), V('afi')])]
+    return Top(es)
+
+
+def deep_programs(tier):
+    """cyclic heaps of any size, acyclic chains, deep FML recursion, deep source nesting (C10 quantifier)"""
+    big = tier == 'thorough'
+    P = []
+    P.append(('cycle:self-array', 'let a = array(1, null); a[0] <- a; print("x\\n"); print("~\\n", a); print("never\\n")'))
+    P.append(('cycle:self-array-dispatch', 'let a = array(2, 0); a[0] <- a; print("~\\n", a[0][0][0][1]); print("~\\n", a[0] == a)'))
+    P.append(('cycle:two-arrays', 'let a = array(1, null); let b = array(1, a); a[0] <- b; print("x\\n"); print("~ ~\\n", 1, b)'))
+    P.append(('cycle:object-field', 'let o = object begin let me = null; let v = 1 end; o.me <- o; print("~\\n", o.me.me.v); print("~\\n", o)'))
+    P.append(('cycle:parent-of-element', 'let a = array(1, null); let o = object extends a begin let f = 1 end; a[0] <- o; print("x\\n"); print("~\\n", o)'))
+    P.append(('cycle:object-field-to-array', 'let a = array(2, 7); let o = object begin let arr = a end; a[1] <- o; print("x\\n"); print("~\\n", a)'))
+    P.append(('cycle:unprinted-is-fine', 'let a = array(1, null); a[0] <- a; let b = array(2, 5); print("~\\n", b); print("ok\\n")'))
+    n = 1000 if big else 150
+    P.append(('cycle:ring-%d' % n, 'let first = array(1, null); let cur = first; let i = 0; while i < %d do begin let nx = array(1, null); cur[0] <- nx; cur <- nx; i <- i + 1 end; cur[0] <- first; print("built\\n"); print("~\\n", first)' % n))
+    m = 1000 if big else 200
+    P.append(('chain:list-%d-print' % m, 'let l = null; let i = 0; while i < %d do begin l <- object begin let next = l; let v = i end; i <- i + 1 end; print("~\\n", l)' % m))
+    P.append(('chain:parents-%d-dispatch' % m, 'let o = 5; let i = 0; while i < %d do begin o <- object extends o begin end; i <- i + 1 end; print("~\\n", o + 1); print("~\\n", o.nosuch(1))' % m))
+    P.append(('chain:nested-arrays-%d-print' % m, 'let a = array(1, 0); let i = 0; while i < %d do begin a <- array(1, a); i <- i + 1 end; print("~\\n", a)' % m))
+    d = 3000 if big else 800
+    P.append(('depth:recursion-%d' % d, 'function d(n) -> if n == 0 then 0 else 1 + d(n - 1); print("~\\n", d(%d))' % d))
+    k = 200 if big else 60
+    P.append(('nest:blocks-%d' % k, 'begin ' * k + 'print("deep\\n")' + ' end' * k))
+    P.append(('nest:parens-%d' % k, 'print("~\\n", ' + '(' * k + '1' + ')' * k + ')'))
+    P.append(('nest:ifs-%d' % k, 'print("~\\n", ' + 'if true then ' * k + '7' + ' else 0' * k + ')'))
+    P.append(('nest:operators-%d' % k, 'print("~\\n", ' + '1 + (' * k + '1' + ')' * k + ')'))
+    P.append(('nest:calls-%d' % k, 'function f(a) -> a + 1; print("~\\n", ' + 'f(' * k + '0' + ')' * k + ')'))
+    # large scale: beyond what the reference semantics can execute inside TLC; judged by the termination rules only
+    L = []
+    L.append(('large:recursion-100000', 'function d(n) -> if n == 0 then 0 else 1 + d(n - 1); print("~\\n", d(100000))'))
+    L.append(('large:ring-1000', 'let first = array(1, null); let cur = first; let i = 0; while i < 1000 do begin let nx = array(1, null); cur[0] <- nx; cur <- nx; i <- i + 1 end; cur[0] <- first; print("built\\n"); print("~\\n", first)'))
+    L.append(('large:list-1000-print', 'let l = null; let i = 0; while i < 1000 do begin l <- object begin let next = l; let v = i end; i <- i + 1 end; print("~\\n", l)'))
+    L.append(('large:parents-1000-dispatch', 'let o = 5; let i = 0; while i < 1000 do begin o <- object extends o begin end; i <- i + 1 end; print("~\\n", o + 1); print("~\\n", o.nosuch(1))'))
+    L.append(('large:blocks-200', 'begin ' * 200 + 'print("deep\\n")' + ' end' * 200))
+    L.append(('large:operators-200', 'print("~\\n", ' + '1 + (' * 200 + '1' + ')' * 200 + ')'))
+    L.append(('large:mutual-cycle-1000', 'let a = array(1000, null); let i = 0; while i < 1000 do begin a[i] <- a; i <- i + 1 end; print("built\\n"); print("~\\n", a)'))
+    return [{'name': n_, 'text': t, 'ast': None} for n_, t in P] + [{'name': n_, 'text': t, 'ast': None, 'large': True} for n_, t in L]
+
+
+TOKEN_SPLIT = None
+
+
+def mutate_tokens(text, rng):
+    """token-level mutation of a source text: delete / duplicate / swap adjacent / replace by another token of the program"""
+    toks = text.split(' ')
+    if len(toks) < 3:
+        return text
+    i = rng.randrange(len(toks))
+    c = rng.random()
+    if c < 0.3:
+        del toks[i]
+    elif c < 0.55:
+        toks.insert(i, toks[i])
+    elif c < 0.8 and i + 1 < len(toks):
+        toks[i], toks[i + 1] = toks[i + 1], toks[i]
+    else:
+        toks[i] = rng.choice(toks + [';', ')', 'end', 'begin', '(', 'let', '=', '<-', 'else', '"', '\\\\', '99999999999', '-', '.'])
+    return ' '.join(toks)
+
+
+def c10(tier):
+    chk = Check('C10', tier)
+    chk.rule = ('(1) %d fault classes x %d statement positions (top level, block, loop body, function body, method body, pending argument, condition, field initializer, '
+                'compound array initializer) injected into a program that prints before and after every position; (2) seeded random programs with a high fault rate; (3) cyclic heaps '
+                '(self loop, 2-cycle, through object field / parent-of-element, ring of N), acyclic chains of N links reaching print and dispatch, FML recursion depth N, source nesting N; '
+                '(4) token-level mutations of valid sources. All through the real CLI as subprocesses (`fml run`, and `fml execute` of the compiled bytes): TLC runs FMLSource on the AST and '
+                'compares stdout + status, with the process rules (success <=> exit 0 + empty stderr; failure <=> normal non-zero exit + diagnostic; death by signal matches nothing); sources '
+                'the parser rejects are judged by TraceProcess (clean rejection before any output). distinct_nontrivial = distinct (program, action) observations judged.' % (len(FAULTS), len(POSITIONS)))
+    exe = build('debug')
+    wd = scratch('c10')
+    rng = random.Random(seed())
+    progs = []
+    combos = [(f, p) for f in FAULTS for p in POSITIONS]
+    if tier != 'thorough':
+        # every class at >= 2 positions and every position with >= several classes
+        combos = [(f, POSITIONS[(i + j) % len(POSITIONS)]) for i, f in enumerate(FAULTS) for j in (0, 4)]
+    for f, p in combos:
+        ast = fault_program(f, p)
+        progs.append({'name': 'fault:%s@%s' % (f, p), 'text': unparse(ast), 'ast': strip_marks(ast)})
+    progs += pool.random_programs(tier_sizes(tier, 60, 1500), base_seed=seed() * 9973 + 1, fault_rate=0.3, tag='faulty')
+    progs += deep_programs(tier)
+    base = pool.random_programs(tier_sizes(tier, 80, 2500), base_seed=seed() * 4049 + 9, fault_rate=0.0, tag='mut')
+    for b in base:
+        progs.append({'name': 'mutated:' + b['name'], 'text': mutate_tokens(b['text'], rng), 'ast': None})
+    # in-process pass gives ASTs (parser's for ast-less texts) and compiled bytes
+    recs = [{'id': i, 'text': p['text'], 'want': ['ast'], 'budget': 10} for i, p in enumerate(progs)]
+    outs = run_harness(exe, 'run', recs, wd, tag='c10h')
+    srecs, pobs, meta = [], [], {}
+    tasks = []
+    for i, p in enumerate(progs):
+        o = outs[i]
+        src = os.path.join(wd, 'p%d.fml' % i)
+        open(src, 'w', encoding='utf-8').write(p['text'])
+        tasks.append((i, 'run', src))
+        if 'bytes' in o:
+            bc = os.path.join(wd, 'p%d.bc' % i)
+            open(bc, 'wb').write(bytes(o['bytes']))
+            tasks.append((i, 'execute', bc))
+
+    def runone(task):
+        i, action, target = task
+        try:
+            pr = subprocess.run([exe, action, target], stdout=subprocess.PIPE, stderr=subprocess.PIPE, timeout=120)
+            return (i, action, pr.returncode, pr.stdout, pr.stderr)
+        except subprocess.TimeoutExpired:
+            return (i, action, None, b'', b'')
+    from concurrent.futures import ThreadPoolExecutor
+    with ThreadPoolExecutor(max_workers=12) as ex:
+        results = list(ex.map(runone, tasks))
+    for (i, action, rc, so, se) in results:
+        p, o = progs[i], outs[i]
+        ast = p['ast'] or o.get('ast')
+        if rc is None:
+            chk.notes['timeouts'] = chk.notes.get('timeouts', 0) + 1
+            continue
+        if True:
+            signaled = rc < 0 or rc >= 128
+            status = 'ok' if rc == 0 else ('crash' if signaled else 'fail')
+            j = len(srecs) + len(pobs)
+            meta[j] = (i, action, rc, so, se)
+            if ast is None or p.get('large'):
+                # no AST: the parser rejected the text (or died): judged at process level only; large programs: termination rules only
+                pobs.append({'id': j, 'rule': 'clean' if p.get('large') else 'reject', 'exit': rc if rc >= 0 else 128 - rc, 'signaled': signaled, 'outlen': len(so), 'errempty': len(se) == 0})
+                continue
+            if status == 'fail' and action == 'run' and (o.get('parse') != 'ok' or o.get('compile') != 'ok' or (o.get('run') or {}).get('init', 'ok') != 'ok'):
+                status = 'reject'
+            srecs.append(srctrace.source_record(j, ast, status, list(so), proc={'errempty': len(se) == 0}))
+    log('[c10] %d subprocess observations, %.0fs' % (len(meta), time.time() - chk.t0))
+    big = [r for r in srecs if progs[meta[r['id']][0]]['name'].split(':')[0] in ('depth', 'chain', 'cycle')]
+    small = [r for r in srecs if r not in big]
+    vs, rs = srctrace.validate(small, wd, tag='c10s', budget=20000)
+    log('[c10] small done %.0fs' % (time.time() - chk.t0))
+    vb, rb = srctrace.validate(big, wd, tag='c10b', budget=400000 if tier != 'thorough' else 4000000, per_batch=4, jvms=6, workers=1, timeout=3000) if big else ({}, [])
+    log('[c10] TLC done %.0fs' % (time.time() - chk.t0))
+    vs.update(vb)
+    for r in rs + rb:
+        chk.add_tlc(r)
+    classes_seen = set()
+    for r in srecs:
+        v = vs[r['id']]
+        i, action, rc, so, se = meta[r['id']]
+        if v['verdict'] == 'spec-invariant':
+            raise ToolError('FMLSource step property violated on %s' % progs[i]['name'])
+        if v['verdict'] == 'budget':
+            chk.notes['over_budget'] = chk.notes.get('over_budget', 0) + 1
+            continue
+        crashed = r['status'] == 'crash'
+        if not v['frag'] and not crashed and ((r['status'] == 'ok') == r['errempty']):
+            # outside the fragment the output is not judged; the process rules still are (checked above through status/errempty consistency)
+            chk.notes['outside_fragment_process_rules_only'] = chk.notes.get('outside_fragment_process_rules_only', 0) + 1
+            chk.traces += 1
+            continue
+        chk.traces += 1
+        chk.count((progs[i]['name'], action))
+        if progs[i]['name'].startswith('fault:') and v['st'] == 'fail':
+            classes_seen.add(progs[i]['name'].split('@')[0])
+        if not v['agree']:
+            chk.violation('%s [fml %s]: semantics says %s with %d bytes of output; process exit %s, %d bytes on stdout, stderr %s' % (
+                progs[i]['name'], action, v['st'], v['outlen'], rc, len(so), 'empty' if not se else 'non-empty'),
+                {'program': progs[i]['name'], 'source': progs[i]['text'][:4000], 'action': action,
+                 'expected': {'status': v['st'], 'out': bytes(v['specout']).decode('utf-8', 'replace')[:2000]},
+                 'observed': {'exit': rc, 'stdout': so.decode('utf-8', 'replace')[:2000], 'stderr': se.decode('utf-8', 'replace')[:600]},
+                 'signature': {'kind': 'crash' if crashed else 'outcome', 'expected': v['st'], 'observed': r['status']}})
+    if pobs:
+        ppath = os.path.join(wd, 'pobs.ndjson')
+        write_ndjson(ppath, pobs)
+        rp = tlc_or_die('TraceProcess', env={'OBS': ppath}, workers=4, timeout=600)
+        chk.add_tlc(rp)
+        pv = {v['id']: v for v in rp.lines.get('VERDICT', [])}
+        if len(pv) != len(pobs):
+            raise ToolError('TraceProcess: %d verdicts for %d observations' % (len(pv), len(pobs)))
+        for ob in pobs:
+            i, action, rc, so, se = meta[ob['id']]
+            chk.traces += 1
+            chk.count((progs[i]['name'], action))
+            if not pv[ob['id']]['ok']:
+                chk.violation('%s [fml %s]: not a clean rejection / termination (exit %s, %d bytes on stdout, stderr %s)' % (progs[i]['name'], action, rc, len(so), 'empty' if not se else 'non-empty'),
+                              {'program': progs[i]['name'], 'source': progs[i]['text'][:4000], 'observed': {'exit': rc, 'stdout': so.decode('utf-8', 'replace')[:500], 'stderr': se.decode('utf-8', 'replace')[:500]},
+                               'signature': {'kind': 'crash' if ob['signaled'] else 'rejection'}})
+    missing = {'fault:' + f for f in FAULTS} - classes_seen
+    if missing:
+        raise ToolError('C10 vacuity guard: fault classes never observed as a prescribed failure: %s' % sorted(missing))
+    chk.notes.update({'fault_classes': len(FAULTS), 'positions': len(POSITIONS), 'fault_class_x_position_programs': len(combos),
+                      'sources_rejected_by_parser': len(pobs), 'deep_or_cyclic_programs': len(deep_programs(tier))})
+    k = 0
+    for r in srecs:
+        i, action, rc, so, se = meta[r['id']]
+        if progs[i]['name'].startswith(('fault:', 'cycle:')) and k < 4 and action == 'run' and (k % 2 == 0 or progs[i]['name'].startswith('cycle')):
+            chk.sample({'program': progs[i]['name'], 'exit': rc, 'stdout': so.decode('utf-8', 'replace')[-120:], 'stderr_head': se.decode('utf-8', 'replace')[:160], 'prescribed': vs[r['id']]['st']})
+            k += 1
+        elif progs[i]['name'].startswith('fault:'):
+            k += 0
+    chk.assumptions = ['TLC', 'FMLSource failure classes (DESIGN §3.4)', 'exit codes >= 128 or negative = death by signal']
     rm(wd)
     return chk.finish()
